@@ -675,7 +675,10 @@ func GetDynamicValueT(
 	}
 
 	if evaluatedObjectT == nil {
-		evaluatedObjectT = GetTopLevelMethodT(frame, class, instance)
+		// a bare method name used as a receiver ('chars.push(1)' in a subclass
+		// of String) stands for the method's result, not for its entry in the
+		// method table: hand out a copy, receivers get mutated
+		evaluatedObjectT = GetTopLevelMethodT(frame, class, instance).DeepCopy()
 	}
 
 	if evaluatedObjectT == nil && instance != "" && instance[0] == '@' {
